@@ -121,6 +121,23 @@ def mc_wire_machine(rep, tier):
     rep.cov.setdefault("spec_sensitivity", {})["MeasureFromPlaceholder"] = s.violated
 
 
+def mc_used_buffer(rep, tier):
+    """The operational encoder started on a USED buffer (earlier bytes, part of them consumed): the earlier bytes stay, the
+    length field does not depend on where the message starts, a checksum covers everything before it in the buffer; the
+    deviation PosFromReadable (placeholder position from the readable count, patch by absolute index) must be refuted."""
+    cfg = open(os.path.join(tlc.SPEC, "MCUsedBuffer.cfg")).read()
+    if tier == "thorough":
+        cfg = cfg.replace("  OptSets <- OptSetsBO\n", "")
+    r = tlc.run_tlc("WireMachine", cfg, workers=8, timeout=3000, heap="8g")
+    tlc.require_ok(r, "WireMachine on used buffers (Refines, PreUntouched, OnlyChecksumsSeePre, PrimsDiscipline)")
+    rep.tlc(r)
+    s = tlc.run_tlc("WireMachine", open(os.path.join(tlc.SPEC, "MCUsedBuffer.cfg")).read().replace("PosFromReadable = FALSE", "PosFromReadable = TRUE"),
+                    workers=8, timeout=900, heap="8g")
+    if not ({"Refines", "PreUntouched"} & set(s.violated)):
+        raise Infra("WireMachine with PosFromReadable violates neither Refines nor PreUntouched: the specification is vacuous")
+    rep.cov.setdefault("spec_sensitivity", {})["PosFromReadable"] = s.violated
+
+
 def mc_read_machine(rep, tier):
     """The operational decoder (cursor, work list, a receiver that may hold an earlier message) refines Wire!Decode;
     the three deviation switches (defects that were found in emitted decoders) must each make TLC find the violation."""
@@ -248,8 +265,19 @@ def classify(prog, v):
         if evk == "deckey":
             out.append(("C05", kind))
             continue
-        if kind == "checksum-coverage":
+        if kind in ("checksum-coverage", "into-checksum-coverage"):
             out.append(("C06", kind))
+            continue
+        if evk == "encinto":
+            # encode into a used buffer: the failing field decides; bytes in front of the message that changed are a
+            # misplaced back-patch when the program has a length field
+            into = ":" + v["meta"].get("into", "")
+            if fk == "len" or (fk is None and fam == "len"):
+                out.append(("C04", kind + ":len" + into))
+            elif fk == "ck" or (fk is None and fam == "ck"):
+                out.append(("C06", kind + ":ck" + into))
+            else:
+                out.append(("C01", kind + (":" + fk if fk else "") + into))
             continue
         if fk == "len" or (fk is None and fam == "len"):
             pid = "C04"
@@ -276,6 +304,8 @@ def check_codec(pid, tier):
     mc_wire(rep, tier if pid in ("C01", "C02") else "quick")
     if pid == "C04" or (tier == "thorough" and pid in ("C01", "C06")):
         mc_wire_machine(rep, tier)
+    if pid in ("C04", "C06"):
+        mc_used_buffer(rep, tier if pid == "C04" else "quick")
     if pid == "C04" and tier == "thorough":
         apalache_len_patch(rep)
     if pid == "C02":
@@ -283,7 +313,7 @@ def check_codec(pid, tier):
     progs, results, tmp = run_family(tier, use, FOCUS[pid], rep)
     events, meta = codec.trace_of(results, use)
     rs, verdicts = codec.validate(events, meta, shards=12)
-    ntr = sum(1 for e in events if e["ev"] in ("enc", "dec", "deckey"))
+    ntr = sum(1 for e in events if e["ev"] in ("enc", "encinto", "dec", "deckey"))
     for r in rs:
         rep.tlc(r, traces=0)
     rep.cov["traces_validated_against_impl"] = rep.cov.get("traces_validated_against_impl", 0) + ntr
@@ -306,8 +336,8 @@ def check_codec(pid, tier):
         if sig[:-len(":reused-receiver")] in failing:
             del failing[sig]
     # every exercised (lang, program) pair is a cell; failing ones carry their kind
-    relevant = {"C01": ("enc",), "C02": ("dec",), "C03": ("enc", "dec", "agree", "xdec"), "C04": ("enc", "dec"), "C05": ("dec", "deckey", "enc"),
-                "C06": ("enc", "dec")}[pid]
+    relevant = {"C01": ("enc", "encinto"), "C02": ("dec",), "C03": ("enc", "dec", "agree", "xdec"), "C04": ("enc", "encinto", "dec"),
+                "C05": ("dec", "deckey", "enc"), "C06": ("enc", "encinto", "dec")}[pid]
     seen = set()
     for e, m in zip(events, meta):
         if e["ev"] in relevant and m.get("lang"):
